@@ -111,6 +111,7 @@ type State struct {
 	regions  int
 	allocs   []string // allocation size terms (elements), for the allocation bound
 	pool     map[int][]string // instantiation terms by width, for callee quantifiers
+	stale    map[string]bool  // pointer terms whose pointee may hold contents left over from earlier use
 	ghostMemo map[string][]V  // results of ghost calls by (callee, argument terms, memory versions)
 	qasm     []*qAssume       // quantified assumptions, instantiated again whenever a new term appears
 	inLate   bool
@@ -169,6 +170,10 @@ func (st *State) fork() *State {
 	n.allocs = append([]string(nil), st.allocs...)
 	n.loopInits = append([][2]string(nil), st.loopInits...)
 	n.qasm = append([]*qAssume(nil), st.qasm...)
+	n.stale = map[string]bool{}
+	for k, v := range st.stale {
+		n.stale[k] = v
+	}
 	n.ghostMemo = map[string][]V{}
 	for k, v := range st.ghostMemo {
 		n.ghostMemo[k] = v
